@@ -1,0 +1,23 @@
+//go:build verif
+
+package websocket
+
+import (
+	"io"
+	"net"
+	"time"
+)
+
+// VerifFrameConn is the exported twin of the unexported websocketConn interface.
+type VerifFrameConn interface {
+	NextReader() (messageType int, r io.Reader, err error)
+	NextWriter(messageType int) (io.WriteCloser, error)
+	Close() error
+	LocalAddr() net.Addr
+	RemoteAddr() net.Addr
+	SetReadDeadline(t time.Time) error
+	SetWriteDeadline(t time.Time) error
+}
+
+// VerifNewTransport is newConn over a supplied frame source.
+func VerifNewTransport(ws VerifFrameConn) net.Conn { return newConn(ws) }
